@@ -114,6 +114,7 @@ def replay(record):
     world = cfg["world"]
     # serial oracle
     params, opt = _build(cfg, vals)
+    start = [p.detach().clone() for p in params]
     for k in range(1, cfg["T"] + 1):
         for p, g in zip(params, _grads(cfg, vals, k)):
             p.grad = g
@@ -147,11 +148,24 @@ def replay(record):
             which = [r for r, rc in enumerate(rcs) if rc != 0]
             problems.append(f"attempt {att + 1}: ranks {which} did not finish (hang/timeout or error in a collective): {[e.strip().splitlines()[-1] if e.strip() else '' for e in errs][:world]}")
         else:
+            low = cfg.get("comm", "FP32") in ("BF16", "FP16")
+            outs = [json.load(open(os.path.join(d, f"out{r}.json"))) for r in range(world)]
             for r in range(world):
-                got = json.load(open(os.path.join(d, f"out{r}.json")))
+                got = outs[r]
                 for pi, (a, b) in enumerate(zip(got, serial)):
                     ta = torch.tensor(a, dtype=torch.float64)
-                    if not torch.allclose(ta, b, rtol=1e-6, atol=1e-9):
+                    if low:
+                        # replicas must be bit-identical; the deviation from serial is bounded by the rounding of the communicated quantity
+                        if a != outs[0][pi]:
+                            problems.append(f"attempt {att + 1}: rank {r} param {pi} differs from rank 0 (replicas not identical)")
+                            break
+                        unit = 2.0 ** -7 if cfg["comm"] == "BF16" else 2.0 ** -10
+                        w0 = start[pi]
+                        scale = (b - w0).abs() if not cfg.get("communicate_params", False) else b.abs()
+                        if ((ta - b).abs() > unit * scale + 1e-6).any():
+                            problems.append(f"attempt {att + 1}: rank {r} param {pi} is off the serial run by more than the rounding of the communicated quantity")
+                            break
+                    elif not torch.allclose(ta, b, rtol=1e-6, atol=1e-9):
                         problems.append(f"attempt {att + 1}: rank {r} param {pi} differs from the serial run by {(ta - b).abs().max().item():.3e}")
                         break
         import shutil
